@@ -5,7 +5,8 @@ import DarkluaModel.C14.Lemmas
 /-!
 Line-protocol handlers for property C14.
 
-* `c14.ser <data>`   → `<expr>`            the model `toExpr` (what the theorems are about)
+* `c14.ser <data>`   → `<expr>|refused`    the model `toExpr` (what the theorems are about); `refused` = serializer error
+* `c14.K <data>`     → `true|false`        `KeysDenote` (no null / NaN key): hypothesis of `conversion_succeeds`
 * `c14.H <data>`     → `true|false`        hypothesis `H14` of `serialize_denotes_partial`
 * `c14.J <data>`     → `true|false`        hypothesis `JsonLike` of `serialize_denotes_json`
 * `c14.eval <expr>`  → `(ok <val>)|(err <class>)`   the reference semantics `Spec.evalExpr`
@@ -165,11 +166,18 @@ def handle (op : String) (args : List String) : String :=
   match op, args with
   | "ser", _ :: _ =>
     match (Sexp.parse joined).bind dataOfSexp with
-    | some d => toString (exprToSexp (toExpr d))
+    | some d =>
+      match toExpr d with
+      | some e => toString (exprToSexp e)
+      | none => "refused"
     | none => "bad-data"
   | "H", _ :: _ =>
     match (Sexp.parse joined).bind dataOfSexp with
     | some d => toString (H14 d)
+    | none => "bad-data"
+  | "K", _ :: _ =>
+    match (Sexp.parse joined).bind dataOfSexp with
+    | some d => toString (KeysDenote d)
     | none => "bad-data"
   | "J", _ :: _ =>
     match (Sexp.parse joined).bind dataOfSexp with
